@@ -41,6 +41,8 @@ inductive RMode
   | blk                                  -- block=True (timeout=None): poll this key again
   | poll (all rem : List Nat)            -- BroadcastChannelBySockets.recv(block=True): go on with the next remote
                                          -- of `rem`, after the last one start again with the first of `all`
+  | pollOnce (rem : List Nat)            -- BroadcastChannelBySockets.recv(block=False): ONE round over the remotes,
+                                         -- RuntimeError("No message broadcasted") when none had a message
   deriving DecidableEq, Repr
 
 /-- operations of an endpoint; the key is `(tid, rn, id)` -/
@@ -208,6 +210,8 @@ def step (s : State) (tid : Nat) : Option State :=
         | .poll all (r :: rs) => some (setThread s tid (goto th (.rLock (k.1, r, k.2.2) (.poll all rs) tag)))
         | .poll [] [] => some (setThread s tid (goto th (.rLock k (.poll [] []) tag)))
         | .poll (a :: as) [] => some (setThread s tid (goto th (.rLock (k.1, a, k.2.2) (.poll (a :: as) as) tag)))
+        | .pollOnce (r :: rs) => some (setThread s tid (goto th (.rLock (k.1, r, k.2.2) (.pollOnce rs) tag)))
+        | .pollOnce [] => some (setThread s tid (advance tid th (.empty k)))
       | _ :: _ => some (setThread s tid (goto th (.rLock2 k tag)))
   | .rLock2 k tag =>
       if s.lock.isSome then none
